@@ -32,7 +32,7 @@ var importMap = map[string]string{
 }
 
 type Stats struct {
-	Files, Imports, GoStmts, ChanOps, MemPoints, MapRanges int
+	Files, Imports, GoStmts, ChanOps, MemPoints, MapRanges, CaptPoints int
 }
 
 // Identifiers (struct fields, variables, parameters) declared with a map type somewhere in the
@@ -140,6 +140,260 @@ type rewriter struct {
 	st      *Stats
 	needVrt bool
 	err     error
+	// local variables of the function being rewritten that one of its `go func(){...}` literals uses
+	// (shared between the spawning function and the goroutines, or between goroutines)
+	captured map[*ast.Object]bool
+}
+
+// goCaptured collects the variables declared in fd (parameters included) that are free in the body
+// of a function literal started with `go` inside fd.
+func goCaptured(fd *ast.FuncDecl) map[*ast.Object]bool {
+	set := map[*ast.Object]bool{}
+	ast.Inspect(fd.Body, func(n ast.Node) bool {
+		g, ok := n.(*ast.GoStmt)
+		if !ok {
+			return true
+		}
+		lit, ok := g.Call.Fun.(*ast.FuncLit)
+		if !ok {
+			return true
+		}
+		ast.Inspect(lit.Body, func(m ast.Node) bool {
+			id, ok := m.(*ast.Ident)
+			if !ok || id.Obj == nil || id.Obj.Kind != ast.Var || id.Name == "_" {
+				return true
+			}
+			dp := id.Obj.Pos()
+			if dp >= fd.Pos() && dp < fd.End() && !(dp >= lit.Pos() && dp < lit.End()) {
+				set[id.Obj] = true
+			}
+			return true
+		})
+		return true
+	})
+	return set
+}
+
+func baseIdent(e ast.Expr) *ast.Ident {
+	for {
+		switch x := e.(type) {
+		case *ast.Ident:
+			return x
+		case *ast.ParenExpr:
+			e = x.X
+		case *ast.IndexExpr:
+			e = x.X
+		case *ast.SliceExpr:
+			e = x.X
+		case *ast.SelectorExpr:
+			e = x.X
+		case *ast.StarExpr:
+			e = x.X
+		default:
+			return nil
+		}
+	}
+}
+
+// capUses lists the captured variables a statement's own expressions mention (not those of nested
+// blocks or function literals, which are visited as statements themselves) and whether the mention
+// may write: assignment target, ++/--, or handed to a call as x, x[a:b] or &x.
+func (r *rewriter) capUses(s ast.Stmt) (objs []*ast.Object, writes map[*ast.Object]bool) {
+	if len(r.captured) == 0 {
+		return nil, nil
+	}
+	writes = map[*ast.Object]bool{}
+	seen := map[*ast.Object]bool{}
+	note := func(id *ast.Ident, w bool) {
+		if id == nil || id.Obj == nil || !r.captured[id.Obj] {
+			return
+		}
+		if dp := id.Obj.Pos(); dp >= s.Pos() && dp < s.End() {
+			return // declared by this very statement: not yet in scope in front of it
+		}
+		if !seen[id.Obj] {
+			seen[id.Obj] = true
+			objs = append(objs, id.Obj)
+		}
+		if w {
+			writes[id.Obj] = true
+		}
+	}
+	var walk func(e ast.Expr)
+	walkCall := func(c *ast.CallExpr) {
+		if sel, ok := c.Fun.(*ast.SelectorExpr); ok {
+			walk(sel.X)
+		} else {
+			walk(c.Fun)
+		}
+		for _, a := range c.Args {
+			switch x := a.(type) {
+			case *ast.Ident:
+				note(x, x.Obj != nil && sliceLike(x.Obj)) // the callee may write through a slice or map
+			case *ast.SliceExpr:
+				note(baseIdent(x), true)
+				walk(x.Low)
+				walk(x.High)
+			case *ast.UnaryExpr:
+				if x.Op == token.AND {
+					note(baseIdent(x.X), true)
+				} else {
+					walk(a)
+				}
+			default:
+				walk(a)
+			}
+		}
+	}
+	walk = func(e ast.Expr) {
+		if e == nil {
+			return
+		}
+		ast.Inspect(e, func(n ast.Node) bool {
+			switch x := n.(type) {
+			case *ast.FuncLit:
+				return false
+			case *ast.CallExpr:
+				walkCall(x)
+				return false
+			case *ast.Ident:
+				note(x, false)
+			}
+			return true
+		})
+	}
+	target := func(l ast.Expr) {
+		note(baseIdent(l), true)
+		if ix, ok := l.(*ast.IndexExpr); ok {
+			walk(ix.Index)
+		}
+	}
+	var simple func(s ast.Stmt)
+	simple = func(s ast.Stmt) {
+		switch x := s.(type) {
+		case *ast.AssignStmt:
+			for _, l := range x.Lhs {
+				target(l)
+			}
+			for _, e := range x.Rhs {
+				walk(e)
+			}
+		case *ast.IncDecStmt:
+			target(x.X)
+		case *ast.ExprStmt:
+			walk(x.X)
+		case *ast.SendStmt:
+			walk(x.Chan)
+			walk(x.Value)
+		case *ast.ReturnStmt:
+			for _, e := range x.Results {
+				walk(e)
+			}
+		case *ast.DeferStmt:
+			walkCall(x.Call)
+		case *ast.GoStmt:
+			walkCall(x.Call)
+		case *ast.DeclStmt:
+			if gd, ok := x.Decl.(*ast.GenDecl); ok {
+				for _, sp := range gd.Specs {
+					if vs, ok := sp.(*ast.ValueSpec); ok {
+						for _, v := range vs.Values {
+							walk(v)
+						}
+					}
+				}
+			}
+		case *ast.IfStmt:
+			if x.Init != nil {
+				simple(x.Init)
+			}
+			walk(x.Cond)
+		case *ast.ForStmt:
+			if x.Init != nil {
+				simple(x.Init)
+			}
+			walk(x.Cond)
+			if x.Post != nil {
+				simple(x.Post)
+			}
+		case *ast.RangeStmt:
+			walk(x.X)
+			if x.Tok == token.ASSIGN {
+				target(x.Key)
+				if x.Value != nil {
+					target(x.Value)
+				}
+			}
+		case *ast.SwitchStmt:
+			if x.Init != nil {
+				simple(x.Init)
+			}
+			walk(x.Tag)
+		case *ast.TypeSwitchStmt:
+			if x.Init != nil {
+				simple(x.Init)
+			}
+			simple(x.Assign)
+		case *ast.LabeledStmt:
+			simple(x.Stmt)
+		}
+	}
+	simple(s)
+	return objs, writes
+}
+
+// sliceLike: the variable's declaration shows a slice, array or map type (make, literal, or a
+// declared type); anything else handed to a call is passed by value or guards itself.
+func sliceLike(o *ast.Object) bool {
+	isSL := func(t ast.Expr) bool {
+		switch t.(type) {
+		case *ast.ArrayType, *ast.MapType:
+			return true
+		}
+		return false
+	}
+	switch d := o.Decl.(type) {
+	case *ast.Field:
+		return isSL(d.Type)
+	case *ast.ValueSpec:
+		if d.Type != nil {
+			return isSL(d.Type)
+		}
+		for i, n := range d.Names {
+			if n.Name == o.Name && i < len(d.Values) {
+				return sliceValue(d.Values[i])
+			}
+		}
+	case *ast.AssignStmt:
+		if len(d.Lhs) == len(d.Rhs) {
+			for i, l := range d.Lhs {
+				if id, ok := l.(*ast.Ident); ok && id.Name == o.Name {
+					return sliceValue(d.Rhs[i])
+				}
+			}
+		}
+	}
+	return false
+}
+
+func sliceValue(v ast.Expr) bool {
+	switch x := v.(type) {
+	case *ast.CompositeLit:
+		switch x.Type.(type) {
+		case *ast.ArrayType, *ast.MapType:
+			return true
+		}
+	case *ast.CallExpr:
+		if id, ok := x.Fun.(*ast.Ident); ok && id.Name == "make" && len(x.Args) > 0 {
+			switch x.Args[0].(type) {
+			case *ast.ArrayType, *ast.MapType:
+				return true
+			}
+		}
+	case *ast.SliceExpr:
+		return true
+	}
+	return false
 }
 
 func (r *rewriter) site(p token.Pos) string {
@@ -247,6 +501,17 @@ func (r *rewriter) stmts(list []ast.Stmt) []ast.Stmt {
 				if id, ok := c.Fun.(*ast.Ident); ok && id.Name == "copy" && len(c.Args) == 2 {
 					out = append(out, r.memPoint(x.Pos()))
 				}
+			}
+		}
+		if objs, writes := r.capUses(s); len(objs) > 0 {
+			for _, o := range objs {
+				r.st.CaptPoints++
+				r.needVrt = true
+				w := "false"
+				if writes[o] {
+					w = "true"
+				}
+				out = append(out, &ast.ExprStmt{X: vrtCall("MemVar", &ast.UnaryExpr{Op: token.AND, X: ast.NewIdent(o.Name)}, ast.NewIdent(w), strLit(r.site(s.Pos())+":"+o.Name))})
 			}
 		}
 		out = append(out, r.stmt(s))
@@ -482,7 +747,7 @@ func (r *rewriter) expr(e ast.Expr) ast.Expr {
 // File instruments one source file; returns the new source.
 func File(path, rel string, pkgVars map[string]bool, st *Stats) ([]byte, error) {
 	fset := token.NewFileSet()
-	f, err := parser.ParseFile(fset, path, nil, parser.ParseComments|parser.SkipObjectResolution)
+	f, err := parser.ParseFile(fset, path, nil, parser.ParseComments)
 	if err != nil {
 		return nil, err
 	}
@@ -505,7 +770,22 @@ func File(path, rel string, pkgVars map[string]bool, st *Stats) ([]byte, error) 
 	}
 	for _, d := range f.Decls {
 		if fd, ok := d.(*ast.FuncDecl); ok && fd.Body != nil {
+			// only variables that some statement of the function may write after they were declared
+			// can be raced on; read-only captures get no points
+			r.captured = goCaptured(fd)
+			written := map[*ast.Object]bool{}
+			ast.Inspect(fd.Body, func(n ast.Node) bool {
+				if st, ok := n.(ast.Stmt); ok {
+					_, w := r.capUses(st)
+					for o := range w {
+						written[o] = true
+					}
+				}
+				return true
+			})
+			r.captured = written
 			fd.Body.List = r.stmts(fd.Body.List)
+			r.captured = nil
 		}
 		if gd, ok := d.(*ast.GenDecl); ok && gd.Tok == token.VAR {
 			for _, sp := range gd.Specs {
